@@ -768,6 +768,64 @@ func liveSupplement(run *vkRun, tier string) {
 	}
 }
 
+// liveConformance is the part of the free-running pass that every property resting on match indexes needs
+// (C02, C06, C07): the replication control flow E-SIM replaces by the driver skeleton is the real goroutine's here,
+// and each recorded stream must be one the skeleton can produce.  Only the fact that needs no interpretation is
+// reported as a violation: a follower credited with entries that were never sent to it.
+func liveConformance(run *vkRun, tier string) {
+	exe, err := os.Executable()
+	if err != nil {
+		run.Cov["driver_conformance"] = "not run: " + err.Error()
+		return
+	}
+	rounds := 3
+	if tier == "thorough" {
+		rounds = 10
+	}
+	cmd := exec.Command(exe, "live", "--script", "backlog", "--rounds", fmt.Sprint(rounds))
+	var out, errb bytes.Buffer
+	cmd.Stdout, cmd.Stderr = &out, &errb
+	done := make(chan error, 1)
+	if err := cmd.Start(); err != nil {
+		run.Cov["driver_conformance"] = "not run: " + err.Error()
+		return
+	}
+	go func() { done <- cmd.Wait() }()
+	select {
+	case <-done:
+	case <-time.After(5 * time.Minute):
+		_ = cmd.Process.Kill()
+		<-done
+	}
+	runs, streams, events := 0, 0, 0
+	var notes []string
+	for _, line := range strings.Split(out.String(), "\n") {
+		if !strings.HasPrefix(line, "LIVE ") {
+			continue
+		}
+		var r liveResult
+		if json.Unmarshal([]byte(line[5:]), &r) != nil {
+			continue
+		}
+		runs++
+		streams += r.Streams
+		events += r.Events
+		for _, rej := range r.Rejected {
+			if strings.Contains(rej, "ACKED-MORE-THAN-SENT") {
+				run.Violation("live:match-index-beyond-sent", "free-running replication stream: "+rej+" (the leader counts, commits and acknowledges entries only it stores)", map[string]interface{}{"cmd": "vraft live --script backlog"})
+			} else {
+				notes = append(notes, rej)
+			}
+		}
+		if !r.OK && len(r.Rejected) == 0 {
+			notes = append(notes, r.Script+": "+r.Problem)
+		}
+	}
+	run.Cov["driver_conformance"] = map[string]interface{}{"script": "backlog (a follower is down while 150 entries are committed, then catches up through the pipeline in chunks of 64)",
+		"script_runs": runs, "streams": streams, "stream_events": events, "not_decided_here": notes,
+		"note": "supplementary and free-running: binds the driver skeleton to the real replication goroutine; the deciding step of this check is the exhaustive exploration above"}
+}
+
 // liveDesyncChild runs the pipeline-stop script in a child process; a child that dies is reported, never re-run in-process.
 func liveDesyncChild(exe string, trials int) (written, leftover int, detail []string, crashed string) {
 	cmd := exec.Command(exe, "desync", "--json", "--trials", fmt.Sprint(trials))
